@@ -53,3 +53,16 @@ class SizedList(list):
 
     def __len__(self):
         return self._n
+
+
+class GrowList(list):
+    """A list that pretends to already hold `base` (possibly symbolic) elements: len() = base + the
+    elements really appended; item access addresses the real elements (used for a bytecode buffer of
+    arbitrary size whose first instructions are real)."""
+
+    def __init__(self, base, real=()):
+        super().__init__(real)
+        self._base = base
+
+    def __len__(self):
+        return self._base + list.__len__(self)
